@@ -424,6 +424,9 @@ func verifyAndFillConfig(cfg *ResponseConfig, nowMS int) error {
 	if nowMS < 0 {
 		return fmt.Errorf("nowMS must be >= 0")
 	}
+	if cfg.StopTimeS != nil && *cfg.StopTimeS < cfg.StartTimeS {
+		return fmt.Errorf("stop time %d is before start time %d", *cfg.StopTimeS, cfg.StartTimeS)
+	}
 	if cfg.StartNr != nil && (*cfg.StartNr > math.MaxUint32 || *cfg.StartNr < math.MinInt32) {
 		return fmt.Errorf("snr must be in the range -2^31 .. 2^32-1")
 	}
